@@ -74,9 +74,30 @@ template <class Solver, class S>
 struct SolverAdaptor : ISolver
 {
     typedef typename Eigen::NumTraits<S>::Real Real;
+    // The shift-and-invert solvers take their shift as `const Scalar&`. The harness hands over a caller's VARIABLE (not a
+    // temporary) and overwrites it as soon as the constructor has returned - what a caller does who loops over shifts or
+    // builds solvers in a factory function. A solver that keeps the reference instead of the value then works with garbage,
+    // with fully defined behaviour (the variable stays alive as long as the solver), so the numeric oracles see it.
+    struct CallerVars { S v[2]; };
+    std::unique_ptr<CallerVars> vars;  // declared before `s`: constructed first
     Solver s;
     template <class... Args>
     explicit SolverAdaptor(Args&&... args) : s(std::forward<Args>(args)...) {}
+    struct Shift1 {};
+    struct Shift2 {};
+    static S scribbled(S x) { return S(-3) * x + S(17); }
+    template <class... Args>
+    SolverAdaptor(Shift1, S sigma, Args&&... args) : vars(new CallerVars{{sigma, S(0)}}), s(std::forward<Args>(args)..., vars->v[0])
+    {
+        vars->v[0] = scribbled(sigma);
+    }
+    template <class... Args>
+    SolverAdaptor(Shift2, S sigmar, S sigmai, Args&&... args) :
+        vars(new CallerVars{{sigmar, sigmai}}), s(std::forward<Args>(args)..., vars->v[0], vars->v[1])
+    {
+        vars->v[0] = scribbled(sigmar);
+        vars->v[1] = scribbled(sigmai);
+    }
     void init0() override { s.init(); }
     void initv(const VecL& v) override
     {
@@ -195,6 +216,31 @@ struct ScalarInfo
     typedef typename Eigen::NumTraits<S>::Real Real;
     static long double eps() { return (long double) Eigen::NumTraits<Real>::epsilon(); }
 };
+
+// Storage of a symmetric / Hermitian matrix for a wrapper that is documented to read ONE triangle (template
+// parameter Uplo): the other strict triangle is "not referenced". mode 0 leaves the full matrix, mode 1 fills the
+// unreferenced triangle with wrong values (same sparsity pattern), mode 2 clears it (one-triangle storage). A wrapper
+// that reads the wrong triangle anywhere (product, factorization, shifted pencil) then computes with a visibly
+// different matrix, while the oracles keep using the true one.
+template <class S>
+Eigen::Matrix<S, Eigen::Dynamic, Eigen::Dynamic> one_triangle_storage(const Eigen::Matrix<S, Eigen::Dynamic, Eigen::Dynamic>& M, bool referenced_upper,
+                                                                        int mode)
+{
+    typedef typename Eigen::NumTraits<S>::Real Real;
+    Eigen::Matrix<S, Eigen::Dynamic, Eigen::Dynamic> R = M;
+    if (mode == 0 || M.size() == 0) return R;
+    const Real mag = M.cwiseAbs().maxCoeff();
+    for (long j = 0; j < M.cols(); j++)
+        for (long i = 0; i < M.rows(); i++)
+        {
+            const bool in_upper = i < j, in_lower = i > j;
+            if (!(referenced_upper ? in_lower : in_upper)) continue;
+            if (mode == 2) R(i, j) = S(0);
+            else if (M(i, j) != S(0)) R(i, j) = S(mag * Real(1.5 + 0.25 * (double) ((i * 7 + j * 13) % 11)));
+        }
+    return R;
+}
+inline int triangle_mode(const WorldSpec& w, uint64_t which) { return (int) (mix64(w.mseed, 0x7A1A + which) % 3); }
 
 template <class S>
 Eigen::SparseMatrix<S> to_sparse(const Eigen::Matrix<S, Eigen::Dynamic, Eigen::Dynamic>& M)
